@@ -95,7 +95,12 @@ class C16(Prop):
         def responder(conn, idx, frame):
             if inject.get("step") is not None and idx - base["n"] == inject["step"]:
                 return td.EOF
-            return healthy(conn, idx, frame)
+            out = healthy(conn, idx, frame)
+            if inject.get("step") is not None and inject.get("glued") and idx - base["n"] == inject["step"] - 1 and isinstance(out, (bytes, bytearray)):
+                # the reply before the missing one arrives with a second frame glued to it in the same segment (sent twice, or
+                # followed by an unsolicited status frame)
+                return bytes(out) + (bytes(out) if inject["glued"] == "twice" else healthy(conn, idx, frame))
+            return out
 
         self.dev.responder = responder
         kind_name = f"{'toggle' if toggle else 'plain'}-{'separate' if special else 'joint'}"
@@ -184,7 +189,10 @@ class C16(Prop):
                     if shape in seen_shapes and r.random() < 0.8:
                         continue
                     seen_shapes.add(shape)
-                    for step in range(len(plan[1]) + 1):
+                    for step, glued in [(st_, g_) for st_ in range(len(plan[1]) + 1) for g_ in ((None, "twice", "again") if st_ else (None,))]:
+                        if glued and r.random() < 0.5:
+                            continue
+                        inject["glued"] = glued
                         reported.clear()
                         reported.update(rep)
                         # a fresh connection per fault: after a half-close the stream stays at EOF
@@ -196,9 +204,12 @@ class C16(Prop):
                             await td.settle(cl2.conn, sum(len(w) for w in rec.writes))
                         finally:
                             inject["step"] = None
+                            inject["glued"] = None
                             await cl2.close()
                         acc.ev()
                         acc.count("eof_injections")
+                        if glued:
+                            acc.count("eof_injections_after_a_glued_reply")
                         acc.count(f"eof_at_step_{step}")
                         acc.sig(env.sig(kind_name, "eof", shape, step))
                         ok = (rec.outcome == "raise" and type(rec.exc) is RuntimeError) or \
@@ -206,7 +217,7 @@ class C16(Prop):
                         if not ok:
                             what = f"returned successful={getattr(rec.value, 'successful', '?')}" if rec.outcome == "return" else f"raised {type(rec.exc).__name__}: {rec.exc}"
                             mech = "empty-reply-reported-success" if rec.outcome == "return" else f"empty-reply-wrong-exception:{type(rec.exc).__name__}"
-                            acc.violation(mech, f"{kind_name} {a} with empty reply at step {step} of {list(shape)}: {what}",
+                            acc.violation(mech, f"{kind_name} {a} with empty reply at step {step} of {list(shape)}" + (f" (the reply before it had a second frame glued to it: {glued})" if glued else "") + f": {what}",
                                           {"args": a, "step": step, "shape": list(shape)})
                         if step == 0 and len(rec.writes) != 1:
                             acc.violation("frame-after-empty-login", f"{a}: wrote {len(rec.writes)} frames although the login reply was empty", {"args": a})
